@@ -8,8 +8,18 @@ def url_string_of(I, v):
     ctx = I.ctx
     if isinstance(v, GStructV) and 'str' in v.ghost:
         return v.ghost['str']
-    # uninterpreted function of the fields that String() reads
     names = [f['n'] for f in I.prog.fields('net/url.URL')]
+    d = {n: (ctx.force(x) if not isinstance(x, Lazy) else x) for n, x in zip(names, v)}
+    # a parsed URL whose Host was replaced by a symbolic text: scheme://host/path?query with everything else concrete
+    if (isinstance(d.get('Scheme'), str) and d['Scheme'] and d.get('Opaque') == '' and d.get('User') is None
+            and (is_sym(d.get('Host')) or (isinstance(d.get('Host'), str) and all(ch.isalnum() or ch in '-.:' for ch in d['Host']))) and isinstance(d.get('Path'), str) and d.get('RawPath') == ''
+            and (d['Path'] == '' or d['Path'].startswith('/')) and all(ch.isalnum() or ch in '/-._~' for ch in d['Path'])
+            and isinstance(d.get('RawQuery'), str) and d.get('Fragment') == '' and d.get('ForceQuery') is False):
+        tail = d['Path'] + ('?' + d['RawQuery'] if d['RawQuery'] else '')
+        if isinstance(d['Host'], str):
+            return d['Scheme'] + '://' + d['Host'] + tail
+        return z3.Concat(z3.StringVal(d['Scheme'] + '://'), d['Host'], z3.StringVal(tail)) if tail else z3.Concat(z3.StringVal(d['Scheme'] + '://'), d['Host'])
+    # uninterpreted function of the fields that String() reads
     parts = []
     for n, x in zip(names, v):
         x = ctx.force(x) if not isinstance(x, Lazy) else None
